@@ -8,6 +8,7 @@
 #include <sys/stat.h>
 #include <sys/time.h>
 #include <sys/resource.h>
+#include <sys/prctl.h>
 #include <errno.h>
 #include <cstdlib>
 #include <iostream>
@@ -331,6 +332,7 @@ static ChildOutcome exec_in_child(const Plan &p, double timeout_s)
 	if (pid == 0)
 	{
 		close(pfd[0]);
+		prctl(PR_SET_PDEATHSIG, SIGKILL);
 		int efd = open(errpath, O_WRONLY | O_CREAT | O_TRUNC, 0600);
 		if (efd >= 0) { dup2(efd, 2); close(efd); }
 		std::set_terminate(term_handler);
@@ -510,6 +512,7 @@ static void spawn_worker(WorkerState &ws, unsigned W, uint64_t base_seed, uint64
 	if (pid == 0)
 	{
 		close(pfd[0]);
+		prctl(PR_SET_PDEATHSIG, SIGKILL);
 		worker_loop(pfd[1], ws.index, W, base_seed, first, last, deadline);
 		_exit(0);
 	}
